@@ -10,6 +10,9 @@ AX = STDLIB_AXIOMS
 
 EUCLID = ["diag_nuts", "lowrank_nuts", "diag_mclmc", "lowrank_mclmc"]
 FLOW = ["flow_nuts", "flow_mclmc"]
+DIAG = ["diag_nuts", "diag_mclmc"]
+# src/transform/adapt/diagonal.rs: LOWER_LIMIT / UPPER_LIMIT (= INIT_*), fill value of init()
+LOWER_LIMIT, UPPER_LIMIT, INIT_FILL = 1e-20, 1e20, 1.0
 
 
 def f2bits(x):
@@ -20,7 +23,41 @@ def bits2f(b):
     return struct.unpack("<d", struct.pack("<Q", int(b)))[0]
 
 
-def gen_cases(ctx, n):
+def gen_content_cases(ctx, n, cid0):
+    import random
+    r = random.Random(ctx.rnd().getrandbits(48) + 909)
+    out = []
+    for k in range(n):
+        preset = "diag_mclmc" if k % 3 == 2 else "diag_nuts"
+        dim = r.randint(2, 3) if preset == "diag_mclmc" else r.randint(1, 3)
+        nt = r.choice([40, 50, 64, 80, 100, 130, 160, 200]) if r.random() < 0.6 else r.randint(40, 200)
+        prec = [r.choice([0.25, 1.0, 4.0, 100.0]) for _ in range(dim)]
+        mu = [r.choice([0.0, 0.0, 1.5, -3.0, 10.0]) for _ in range(dim)]
+        sd0 = 1.0 / math.sqrt(prec[0])
+        c = {"id": cid0 + k, "preset": preset, "num_tune": nt, "num_draws": 2, "dim": dim,
+             "seed": r.randint(0, 2 ** 32), "maxdepth": r.randint(3, 5), "content": True,
+             "use_grad_based_estimate": (k % 2 == 0),
+             "early_window": r.choice([0.1, 0.3, 0.5]), "step_size_window": r.choice([0.05, 0.15, 0.3]),
+             "switch_freq": r.choice([3, 5, 8, 12, 20]), "early_switch_freq": r.choice([2, 3, 5, 10]),
+             "update_freq": r.choice([1, 1, 2, 5, 7]), "growth": r.choice([1.0, 1.1, 1.5, 2.0]),
+             "prec": prec, "mu": mu,
+             "init": [mu[i] + r.choice([-0.5, -0.2, 0.3]) / math.sqrt(prec[i]) for i in range(dim)]}
+        c["init"][0] = mu[0] - 0.3 * sd0
+        if preset == "diag_nuts":
+            c["method"] = r.choice(["dual", "dual", "adam"])
+            c["jitter"] = r.choice([None, 0.1])
+        else:
+            c["jitter"] = None
+            c["fixed_step"] = r.choice([0.25, 0.5])
+            c["store_divergences"] = True
+        if r.random() < 0.5:
+            # every evaluation with x[0] above the threshold is faulty -> rejected draws
+            c["region_fault"] = [mu[0] + r.choice([0.5, 1.0, 1.5]) * sd0, r.choice(["rec", "nan_logp", "huge_energy"])]
+        out.append(c)
+    return out
+
+
+def gen_cases(ctx, n, n_content=0):
     r = ctx.rnd()
     cases = []
     tune_pool = [0, 1, 2, 3, 4, 5, 7, 10, 13, 20, 27, 35, 50, 64, 90, 130]
@@ -56,6 +93,11 @@ def gen_cases(ctx, n):
                 c["fixed_step"] = 0.25
             cases.append(c)
             cid += 1
+    # content tie (C09): diagonal presets with several window switches, both estimators
+    # (gradient based / draw based), rejected draws, non-zero means
+    for c in gen_content_cases(ctx, n_content, cid):
+        cases.append(c)
+        cid += 1
     while len(cases) < n:
         preset = r.choice(EUCLID * 3 + FLOW)
         nt = r.choice(tune_pool) if r.random() < 0.7 else r.randint(0, 200)
@@ -79,6 +121,11 @@ def gen_cases(ctx, n):
             # a fault region makes some trajectories diverge -> rejected draws
             c["region_fault"] = [r.choice([0.5, 1.0, 1.5]), r.choice(["rec", "nan_logp", "huge_energy"])]
         c["prec"] = [r.choice([0.25, 1.0, 4.0, 100.0]) for _ in range(c["dim"])]
+        if preset in DIAG:
+            c["content"] = True
+            c["use_grad_based_estimate"] = r.random() < 0.5
+            if preset == "diag_mclmc":
+                c["store_divergences"] = True
         cases.append(c)
         cid += 1
     return cases
@@ -113,7 +160,11 @@ def goods_of(c, out):
     return goods
 
 
-def model_expr(c, out):
+def wants_content(c, prop):
+    return prop == "C09" and c["preset"] in DIAG and bool(c.get("content"))
+
+
+def model_expr(c, out, prop=None):
     if c["preset"] in FLOW:
         ssw = c.get("step_size_window", 0.07)
         upd = c.get("update_freq", 128)
@@ -121,8 +172,9 @@ def model_expr(c, out):
         return "flow_trace (of_bits %d) %d%%N %d%%N %d%%nat" % (f2bits(ssw), upd, c["num_tune"], n)
     o = case_opts(c)
     goods = goods_of(c, out) if "draws" in out else []
-    return ("global_trace {| o_early_sw := %d; o_main_sw := %d; o_upd := %d |}%%N (of_bits %d) (of_bits %d) "
-            "(of_bits %d) %d%%N %s" % (o["early_switch_freq"], o["switch_freq"], o["update_freq"],
+    fn = "global_trace_fg" if wants_content(c, prop) else "global_trace"
+    return ("%s {| o_early_sw := %d; o_main_sw := %d; o_upd := %d |}%%N (of_bits %d) (of_bits %d) "
+            "(of_bits %d) %d%%N %s" % (fn, o["early_switch_freq"], o["switch_freq"], o["update_freq"],
                                       f2bits(o["early_window"]), f2bits(o["step_size_window"]),
                                       f2bits(o["growth"]), c["num_tune"],
                                       coq_list([coq_bool(g) for g in goods])))
@@ -281,6 +333,8 @@ def compare(c, out, model, prop):
     diag = c["preset"].startswith("diag")
     for i, d in enumerate(draws):
         m = model[i + 2]
+        if -3 in m:  # global_trace_fg: ... ++ [-3] ++ foreground window
+            m = m[:m.index(-3)]
         sep = m.index(-1)
         head, state = m[:sep], m[sep + 1:]
         if bool(head[0]) != d["tuning"]:
@@ -339,9 +393,256 @@ def hbar_checks(cases, outs, models):
     return exprs, meta
 
 
+# ------------------------------------------------------------------------------------------------
+# C09 content tie (diagonal presets): every installed transformation is recomputed, bit for bit,
+# from exactly the draws of the model's foreground window
+# ------------------------------------------------------------------------------------------------
+def _nan(b):
+    b = int(b)
+    return (b & 0x7FF0000000000000) == 0x7FF0000000000000 and (b & 0x000FFFFFFFFFFFFF) != 0
+
+
+def _same_bits(a, b):
+    a, b = int(a), int(b)
+    return a == b or (_nan(a) and _nan(b))
+
+
+def _zl(bits):
+    return coq_list(["%d%%Z" % int(b) for b in bits])
+
+
+def content_plan(c, out, model):
+    """What the content tie has to establish for one case.  Returns a dict with
+       fails   : concrete failures that need no model evaluation,
+       init    : (x, g, installed) of the initial point,
+       updates : [(draw, window tags, installed before, installed after)] for every draw at which
+                 the transformation id changed,
+       points  : tag -> (x bits, g bits) or None when the fed point is not observable."""
+    draws = [d for d in out["draws"] if "draw" in d]
+    mclmc = c["preset"].endswith("mclmc")
+    ci = out.get("content_init")
+    plan = {"fails": [], "updates": [], "points": {}, "init": None, "unknown_points": 0, "div_tags": set()}
+    if not ci or any(not d["hook"].get("content") for d in draws):
+        plan["fails"].append(("harness did not report the estimator content", {}))
+        return plan
+    plan["points"][-1] = (ci["x"], ci["g"])
+    plan["init"] = (ci["x"], ci["g"], ci)
+    for i, d in enumerate(draws):
+        ct = d["hook"]["content"]
+        if mclmc and d["diverging"]:
+            # MclmcChain hands the last state of the failed trajectory to the collector while the
+            # chain itself stays at the start of the draw: that state is the start of the
+            # diverging leapfrog step, reported by the divergence statistics
+            if d.get("div_start") and d.get("div_start_grad"):
+                plan["points"][i] = (d["div_start"], d["div_start_grad"])
+                plan["div_tags"].add(i)
+            else:
+                plan["points"][i] = None
+        else:
+            plan["points"][i] = (ct["x"], ct["g"])
+    trs = [ci] + [d["hook"]["content"] for d in draws]
+    for i in range(len(draws)):
+        prev, cur = trs[i], trs[i + 1]
+        if cur["id"] != prev["id"]:
+            m = model[i + 2]
+            fg = m[m.index(-3) + 1:] if -3 in m else None
+            if fg is None:
+                plan["fails"].append(("model printed no window for draw %d" % i, {"draw": i}))
+                continue
+            if cur["id"] != prev["id"] + 1:
+                plan["fails"].append(("transformation id jumps from %d to %d at draw %d" % (prev["id"], cur["id"], i), {"draw": i}))
+            plan["updates"].append((i, fg, prev, cur))
+        else:
+            for key in ("stds", "inv_stds", "mean"):
+                if any(not _same_bits(a, b) for a, b in zip(prev[key], cur[key])):
+                    plan["fails"].append(("the diagonal transformation (%s) changed at draw %d although its id stayed %d"
+                                          % (key, i, cur["id"]), {"draw": i}))
+                    break
+    return plan
+
+
+def content_chains(plan):
+    """Groups the windows of all updates of a case into maximal lists: the window of a later update
+    of the same estimator extends the earlier one, so one scan per estimator lifetime serves all
+    its prefixes.  Returns (chains, where) with where[k] = (chain index, prefix length) for update
+    k, or None when a fed point of the window is not observable."""
+    chains = []
+    where = []
+    pts = plan["points"]
+    for (i, fg, prev, cur) in plan["updates"]:
+        if any(pts.get(t) is None for t in fg):
+            where.append(None)
+            plan["unknown_points"] += 1
+            continue
+        hit = None
+        for ci_, ch in enumerate(chains):
+            n = min(len(ch), len(fg))
+            if ch[:n] == fg[:n] and n > 0:
+                hit = ci_
+                break
+        if hit is None:
+            chains.append(list(fg))
+            hit = len(chains) - 1
+        elif len(fg) > len(chains[hit]):
+            chains[hit] = list(fg)
+        where.append((hit, len(fg)))
+    return chains, where
+
+
+def balanced(exprs, costs, bins=16):
+    """Order expressions so that contiguous shards of equal length have similar cost."""
+    order = sorted(range(len(exprs)), key=lambda i: -costs[i])
+    perm = [order[i] for b in range(bins) for i in range(b, len(order), bins)]
+    return perm
+
+
+def eval_balanced(name, prelude, exprs, costs):
+    if not exprs:
+        return [], None
+    perm = balanced(exprs, costs)
+    vals, err = coq_eval_shards(name, prelude, [exprs[i] for i in perm], shard_size=max(1, -(-len(exprs) // 16)), timeout=1500)
+    if err:
+        return None, err
+    res = [None] * len(exprs)
+    for j, i in enumerate(perm):
+        res[i] = vals[j]
+    return res, None
+
+
+def content_tie(ctx, todo, outs, models, broken, stats):
+    """todo: cases; broken: ids of cases whose schedule tie already failed (their windows are not
+    trusted).  Registers violations and the obligation content-tie-diag."""
+    import time
+    budget = 60000 if ctx.tier == "quick" else 450000   # element updates of the binary64 model
+    prelude = "From NutsV Require Import lib.Fp model.Estimator.\nFrom Coq Require Import ZArith NArith List.\nImport ListNotations.\n"
+    lo, hi, fill = f2bits(LOWER_LIMIT), f2bits(UPPER_LIMIT), f2bits(INIT_FILL)
+    plans = {}
+    exprs, costs, meta = [], [], []
+    spent = 0
+    skipped_budget = 0
+    cs = [c for c in todo if wants_content(c, ctx.prop) and c["id"] not in broken]
+    # dedicated content cases (several switches) first, then the random ones
+    cs.sort(key=lambda c: (0 if "mu" in c else 1, c["id"]))
+    byid = {c["id"]: c for c in cs}
+    nfail = 0
+    for c in cs:
+        out, model = outs[c["id"]], models[c["id"]]
+        if out.get("set_position") != "ok" or not model or model[0][0] == -2:
+            continue
+        plan = content_plan(c, out, model)
+        for what, extra in plan["fails"]:
+            nfail += 1
+            violation(ctx, "implementation violates C09: %s" % what,
+                      dict({"case": c, "replay": "echo '<case json>' | build/target/debug/schedule"}, **extra), found_input=True)
+        if plan["init"] is None:
+            continue
+        chains, where = content_chains(plan)
+        gb = bool(c.get("use_grad_based_estimate", True))
+        dim = c["dim"]
+        cost = sum(len(ch) for ch in chains) * dim * (2 if gb else 1)
+        if spent + cost > budget and plans:
+            skipped_budget += 1
+            continue
+        spent += cost
+        plan["chains"], plan["where"], plan["gb"] = chains, where, gb
+        plans[c["id"]] = plan
+        x0, g0, ci = plan["init"]
+        for j in range(dim):
+            exprs.append("diag_install_init %s" % _zl([x0[j], g0[j], fill, lo, hi]))
+            costs.append(1)
+            meta.append(("init", c["id"], j))
+        # requests per estimator lifetime: the distinct sample counts at which an update happened,
+        # with the scales installed before the first update at that count (a repeated update over
+        # an unchanged window has the same inputs and, the first one matching, the same old scales)
+        for k, ch in enumerate(chains):
+            first = {}
+            for u, w in enumerate(where):
+                if w is not None and w[0] == k and w[1] not in first:
+                    first[w[1]] = u
+            ns = sorted(first)
+            plan.setdefault("reqs", {})[k] = ns
+            for j in range(dim):
+                reqs = coq_list(["(%d%%N, (%d%%Z, %d%%Z))" % (n, int(plan["updates"][first[n]][2]["stds"][j]),
+                                                              int(plan["updates"][first[n]][2]["inv_stds"][j])) for n in ns])
+                xs = _zl([plan["points"][t][0][j] for t in ch])
+                gs = _zl([plan["points"][t][1][j] for t in ch]) if gb else "[]"
+                exprs.append("diag_window %s %d%%Z %d%%Z %s %s %s" % (coq_bool(gb), lo, hi, xs, gs, reqs))
+                costs.append(len(ch) * (2 if gb else 1) + 4 * len(ns))
+                meta.append(("win", c["id"], k, j))
+    t0 = time.time()
+    vals, err = eval_balanced(ctx.prop + "_window", prelude, exprs, costs)
+    t1 = time.time()
+    ctx.oblig("model-eval-content", err is None, err or "")
+    if err:
+        return
+    bad_cases = set()
+    expected = {}
+    for m, v in zip(meta, vals):
+        if m[0] == "init":
+            # initial transformation = estimate from the initial point alone
+            _, cid, j = m
+            ctx.evaluations += 1
+            ci = plans[cid]["init"][2]
+            obs = [ci["stds"][j], ci["inv_stds"][j], ci["mean"][j]]
+            if (ci["id"] != 0 or any(not _same_bits(a, b) for a, b in zip(v, obs))) and cid not in bad_cases:
+                bad_cases.add(cid)
+                violation(ctx, "implementation violates C09: transformation installed by init() (id %s) is not the estimate from the initial point: "
+                          "coordinate %d model [std, 1/std, mean] bits %s, implementation %s" % (ci["id"], j, v, obs),
+                          {"case": byid[cid], "coordinate": j, "expected_bits": v, "observed_bits": obs}, found_input=True)
+        else:
+            _, cid, k, j = m
+            ns = plans[cid]["reqs"][k]
+            if len(v) != len(ns):
+                ctx.oblig("model-eval-content-shape", False, "case %s lifetime %d: %d results for %d requests" % (cid, k, len(v), len(ns)))
+                return
+            for n, r in zip(ns, v):
+                expected[(cid, k, n, j)] = r
+    nchecked = 0
+    nupd = {True: 0, False: 0}
+    multi_switch = 0
+    for cid, plan in plans.items():
+        c = byid[cid]
+        for u, (i, fg, prev, cur) in enumerate(plan["updates"]):
+            w = plan["where"][u]
+            if w is None:
+                continue
+            nupd[plan["gb"]] += 1
+            for j in range(c["dim"]):
+                v = expected[(cid, w[0], w[1], j)]
+                obs = [cur["stds"][j], cur["inv_stds"][j], cur["mean"][j]]
+                ctx.evaluations += 1
+                nchecked += 1
+                if any(not _same_bits(a, b) for a, b in zip(v, obs)) and cid not in bad_cases:
+                    bad_cases.add(cid)
+                    violation(ctx, "implementation violates C09: transformation installed at draw %d is not the estimate over the window %s: "
+                              "coordinate %d has std %r (1/std %r, mean %r), the %s estimate over exactly these %d draws is std %r (1/std %r, mean %r)"
+                              % (i, fg, j, bits2f(obs[0]), bits2f(obs[1]), bits2f(obs[2]),
+                                 "gradient based" if plan["gb"] else "draw based", len(fg), bits2f(v[0]), bits2f(v[1]), bits2f(v[2])),
+                              {"case": c, "draw": i, "window_tags": fg, "coordinate": j, "expected_bits": v, "observed_bits": obs,
+                               "window_points": {str(t): plan["points"][t] for t in fg},
+                               "replay": "echo '<case json>' | build/target/debug/schedule"}, found_input=True)
+        if len(plan["chains"]) >= 3:
+            multi_switch += 1
+    stats["content"] = {"cases": len(plans), "cases_skipped_budget": skipped_budget,
+                        "updates_checked_grad_based": nupd[True], "updates_checked_draw_based": nupd[False],
+                        "coordinate_comparisons": nchecked, "window_elements": spent,
+                        "cases_with_three_or_more_estimator_lifetimes": multi_switch,
+                        "updates_with_unobservable_point": sum(p["unknown_points"] for p in plans.values()),
+                        "window_points_from_mclmc_divergence_statistics":
+                            sum(len([t for ch in p["chains"] for t in ch if t in p["div_tags"]]) for p in plans.values()),
+                        "cases_with_rejected_draws": len([1 for cid in plans if not all(goods_of(byid[cid], outs[cid]))]),
+                        "presets": sorted(set(byid[cid]["preset"] for cid in plans)),
+                        "model_seconds": round(t1 - t0, 1)}
+    enough = nupd[True] > 0 and nupd[False] > 0 and multi_switch > 0
+    ctx.oblig("content-tie-diag", not bad_cases and nfail == 0 and enough,
+              "%d cases with a transformation that is not the estimate over the model's window; %d other failures; coverage %s"
+              % (len(bad_cases), nfail, json.dumps(stats["content"])))
+
+
 def run(ctx):
     prop = ctx.prop
-    n_cases = 150 if ctx.tier == "quick" else 700
+    n_cases = 174 if ctx.tier == "quick" else 780
+    n_content = 24 if ctx.tier == "quick" else 120
     # 1. proofs + audit
     audit_forbidden(ctx)
     check_property_file(ctx, prop, allow_axioms=AX)
@@ -350,19 +651,24 @@ def run(ctx):
     ctx.oblig("harness-build", ok, out[-3000:])
     if not ok:
         return
-    cases = gen_cases(ctx, n_cases)
+    cases = gen_cases(ctx, n_cases, n_content)
     outs, errs = run_harness_parallel("schedule", cases)
     ctx.oblig("harness-run", not errs and len(outs) == len(cases), "\n".join(errs)[:2000])
     # 3. model on the same inputs
     prelude = "From NutsV Require Import lib.Fp model.Schedule model.DualAvg.\nFrom Coq Require Import ZArith NArith List.\nImport ListNotations.\n"
+    okm, outm = coq_make(["model/DualAvg.vo", "model/Estimator.vo"])
+    ctx.oblig("coq-build:models", okm, outm[-3000:] if not okm else "")
+    if not okm:
+        return
     todo = [c for c in cases if c["id"] in outs]
-    exprs = [model_expr(c, outs[c["id"]]) for c in todo]
+    exprs = [model_expr(c, outs[c["id"]], prop) for c in todo]
     vals, err = coq_eval_shards(prop + "_sched", prelude, exprs, shard_size=max(1, len(exprs) // 16 + 1))
     ctx.oblig("model-eval", err is None, err or "")
     if err:
         return
     models = {c["id"]: v for c, v in zip(todo, vals)}
     ndiff = 0
+    broken = set()
     stats = {"presets": {}, "num_tune_zero": 0, "with_rejected_draws": 0, "with_switch": 0, "draws": 0}
     for c in todo:
         o = outs[c["id"]]
@@ -385,6 +691,8 @@ def run(ctx):
         bad = oracle(c, o, prop)
         if len(ctx.samples) < 3 and "draws" in o:
             ctx.samples.append({"case": c, "goods": goods_of(c, o), "model_trace_head": m[:4]})
+        if bad or diffs:
+            broken.add(c["id"])
         if bad:
             violation(ctx, "implementation violates %s: %s" % (prop, bad[0][0]),
                       {"case": c, "failures": [b[0] for b in bad], "model_differences": diffs,
@@ -395,6 +703,9 @@ def run(ctx):
                       {"case": c, "differences": diffs, "correspondence": "model/Schedule.v global_trace vs harness schedule",
                        "theorems_no_longer_tied": ctx.notes.get("theorems", {}).get(prop, [])}, found_input=False)
     ctx.oblig("correspondence-schedule", ndiff == 0, "%d cases differ" % ndiff)
+    # 3b. content of the estimators behind every installed diagonal transformation
+    if prop == "C09":
+        content_tie(ctx, todo, outs, models, broken, stats)
     # 4. which acceptance statistic feeds the step-size adaptation (binary64, bit-exact)
     exprs2, meta = hbar_checks(todo, outs, models)
     if exprs2 and prop == "C09":
@@ -422,7 +733,8 @@ _TB = [
     "Coq 8.16.1 kernel: coqc full .vo build, vm_compute for model evaluation and closed decidable obligations; no native_compute",
     "axioms (Print Assumptions): theorems not mentioning binary64 are closed under the global context; those that do depend on Flocq and through it on ClassicalDedekindReals.sig_forall_dec, ClassicalDedekindReals.sig_not_dec, FunctionalExtensionality.functional_extensionality_dep, Classical_Prop.classic (all Coq standard library)",
     "hand-written model coq/model/Schedule.v (GlobalStrategy::new/adapt, ExternalTransformAdaptation::new/adapt, estimator windows, chain draw order) - tied to /repo only by the correspondence run",
-    "correspondence harness /verif/harness/src/bin/schedule.rs, hook accessors (cfg nuts_rs_verif) verif_schedule_state / verif_adapt_state, python glue tools/vlib.py, tools/props/schedule.py",
+    "correspondence harness /verif/harness/src/bin/schedule.rs, hook accessors (cfg nuts_rs_verif) verif_schedule_state / verif_adapt_state / verif_state / verif_data / DiagMassMatrix::verif_params, python glue tools/vlib.py, tools/props/schedule.py",
+    "C09 content tie: binary64 model of RunningVariance / the diagonal update kernels in coq/model/Estimator.v (frv_add, diag_install, diag_window; kernels tied bit-exactly to CpuMath by C08 as well), constants LOWER_LIMIT / UPPER_LIMIT / init fill copied from src/transform/adapt/diagonal.rs",
     "not modelled: the step-size search and dual averaging internals (abstract state SS in C06_stepsize_frozen; see C07), libm, ChaCha8, faer",
 ]
 TRUSTED = {"C06": _TB, "C09": _TB}
@@ -431,9 +743,11 @@ ASSUMPTIONS = {
             "jitter factor of each draw lies in [1-j, 1+j) (rand Uniform::new contract)",
             "jitter = Some(0.0) is rejected by rand (EmptyRange) and is not generated; MCLMC presets are run with dim >= 2"],
     "C09": ["is_good of a draw is derived from the reported index_in_trajectory / divergence flag exactly as DrawGradCollector does",
-            "low-rank estimator: the transformation id is not compared (an update may be refused by the finiteness guards)"],
+            "low-rank estimator: the transformation id is not compared (an update may be refused by the finiteness guards); its content is not tied (diagonal presets only)",
+            "content tie: the point fed for draw k is the state the chain is at after draw k (NutsChain; MclmcChain on a non-diverging draw); for a diverging MclmcChain draw it is the start of the diverging leapfrog step as reported by the divergence statistics (store_divergences), which is the state MclmcChain registers with the collector",
+            "content tie: the foreground window is the one printed by the model (global_trace_fg), trusted only for cases whose schedule tie (all counts, ids) holds on every draw"],
 }
 RULE = {
     "C06": "cases: fixed boundary corpus (6 presets x num_tune in {0,1,2,3,7,20}) then seeded random presets/num_tune/window fractions/frequencies/growth/method/jitter/fault regions; each case runs the real chain through the public API and the Coq model (vm_compute) on the logged good/rejected history; non-trivial = at least 2 draws, distinct by (preset, num_tune, options, good-history)",
-    "C09": "same case stream as C06; compared per draw: all 8 schedule state components (counts, window size, last_update, has_initial), tuning, transformation id (diagonal), and bit-exact hbar / Adam m to decide which acceptance statistic advanced the adaptation",
+    "C09": "same case stream as C06 (plus dedicated diagonal cases: num_tune 40..200, small switch frequencies, gradient based and draw based estimates, non-zero means, fault regions); compared per draw: all 8 schedule state components (counts, window size, last_update, has_initial), tuning, transformation id (diagonal), and bit-exact hbar / Adam m to decide which acceptance statistic advanced the adaptation; content tie (diag_nuts, diag_mclmc): at every draw where the transformation id changes, std / 1/std / mean of every coordinate are recomputed bit-exactly (coq/model/Estimator.v, vm_compute) from the positions and gradients of exactly the draws in the model's foreground window and compared with the installed DiagMassMatrix; between updates the installed values must not move; the transformation installed by init() is recomputed from the initial point",
 }
